@@ -341,37 +341,33 @@ func runGen(args []string) int {
 	for _, p := range []string{"enums.go", "proto/gtfs-realtime.pb.go", "proto/us-ny-mta-alerts-extension.pb.go", "proto/us-ny-mta-trips-extension.pb.go"} {
 		g.loadConsts(filepath.Join(repo, p))
 	}
-	enums := g.genEnums(repo)
-	nyct := g.genNyct(repo)
-	footprint := g.genFootprint(repo)
-	panics := g.genPanicSites(repo)
-	comparators := g.genComparators(repo)
-	if len(g.errs) > 0 {
-		for _, e := range g.errs {
-			fmt.Fprintln(os.Stderr, "gen:", e)
-		}
-		return 1
-	}
+	constErrs := g.errs
 	os.MkdirAll(out, 0o755)
-	if err := os.WriteFile(filepath.Join(out, "Enums.v"), []byte(enums), 0o644); err != nil {
-		fmt.Fprintln(os.Stderr, err)
-		return 1
+	// every table is translated on its own: a table whose source is no longer in a shape its translator handles is NOT
+	// written (exit status 3, its name and the reason in NOT-REGENERATED.txt); the caller decides what stands in for it
+	parts := []struct {
+		file string
+		gen  func(string) string
+	}{{"Enums.v", g.genEnums}, {"NyctTables.v", g.genNyct}, {"Footprint.v", g.genFootprint}, {"PanicSites.v", g.genPanicSites}, {"Comparators.v", g.genComparators}}
+	var failed []string
+	for _, p := range parts {
+		g.errs = append([]string{}, constErrs...)
+		text := p.gen(repo)
+		if len(g.errs) > 0 {
+			for _, e := range g.errs {
+				fmt.Fprintln(os.Stderr, "gen:", p.file+":", e)
+			}
+			failed = append(failed, p.file+": "+strings.Join(g.errs, "; "))
+			continue
+		}
+		if err := os.WriteFile(filepath.Join(out, p.file), []byte(text), 0o644); err != nil {
+			fmt.Fprintln(os.Stderr, err)
+			return 1
+		}
 	}
-	if err := os.WriteFile(filepath.Join(out, "NyctTables.v"), []byte(nyct), 0o644); err != nil {
-		fmt.Fprintln(os.Stderr, err)
-		return 1
-	}
-	if err := os.WriteFile(filepath.Join(out, "Footprint.v"), []byte(footprint), 0o644); err != nil {
-		fmt.Fprintln(os.Stderr, err)
-		return 1
-	}
-	if err := os.WriteFile(filepath.Join(out, "PanicSites.v"), []byte(panics), 0o644); err != nil {
-		fmt.Fprintln(os.Stderr, err)
-		return 1
-	}
-	if err := os.WriteFile(filepath.Join(out, "Comparators.v"), []byte(comparators), 0o644); err != nil {
-		fmt.Fprintln(os.Stderr, err)
-		return 1
+	if len(failed) > 0 {
+		os.WriteFile(filepath.Join(out, "NOT-REGENERATED.txt"), []byte(strings.Join(failed, "\n")+"\n"), 0o644)
+		return 3
 	}
 	return 0
 }
